@@ -1288,3 +1288,8 @@ package main
 //@   requires [C20] pres != nil
 //@   modifies inferred
 //@   ensures [C20] actor_and_target_kept: r != nil && r.Pres != nil && r.Pres.TargetUserId == pres.AcsTarget && r.Pres.ActorUserId == pres.AcsActor && r.Pres.Topic == pres.Topic && r.Pres.Src == pres.Src && r.Pres.UserAgent == pres.UserAgent
+
+// C20: "every reply field that the protobuf schema defines carries the same value as in the JSON rendering": the
+// parameters of a {ctrl}, whichever map type the handler built them with. Dynamic map types are outside the contract
+// language; a bounded stand-in runs the real serialiser on the three shapes in use.
+//@ bounded [C20] ctrl_params_kept: shape int in 0..2, v int in 0..15 :: verifCtrlParamsKept(shape, v)
